@@ -1503,7 +1503,8 @@ theorem activateDue_exact : ∀ (l : List Stream) (s s1 : State), activateDue l 
       · exact Or.inl h1
       · exact Or.inr ⟨y, List.mem_cons_of_mem _ hy, hy2⟩
 
-/-- the value `UpdateStreamAtEpochStart` writes -/
+/-- the value `UpdateStreamAtEpochStart` writes for a stream whose records are settled (for a sponsored stream:
+    after `Stream.retarget`, i.e. `started (st.retarget distr)`) -/
 def started (st : Stream) : Stream :=
   { st with epochCoins := Coins.quo (Coins.sub st.coins st.distributed) (st.numEpochs - st.filled),
             ecEmpty := (Coins.sub st.coins st.distributed).isZero }
@@ -1512,14 +1513,15 @@ theorem startStreams_exact : ∀ (l : List Stream) (s s' : State), SStruct s →
     (∀ st ∈ l, getS s.streams st.id = some st) → startStreams l s = .ok s' →
     s'.ptrs = s.ptrs ∧ s'.active = s.active ∧ s'.now = s.now ∧
     (∀ x, x ∉ l.map (·.id) → getS s'.streams x = getS s.streams x) ∧
-    (∀ st ∈ l, getS s'.streams st.id = some (started st) ∧ st.numEpochs - st.filled ≠ 0 ∧ ∀ i, amt st.distributed i ≤ amt st.coins i) := by
+    s'.distr = s.distr ∧
+    (∀ st ∈ l, getS s'.streams st.id = some (started (st.retarget s.distr)) ∧ st.numEpochs - st.filled ≠ 0 ∧ ∀ i, amt st.distributed i ≤ amt st.coins i) := by
   intro l
   induction l with
   | nil =>
     intro s s' _ _ _ h
     simp only [startStreams, Except.ok.injEq] at h
     subst h
-    exact ⟨rfl, rfl, rfl, fun _ _ => rfl, by simp⟩
+    exact ⟨rfl, rfl, rfl, fun _ _ => rfl, rfl, by simp⟩
   | cons st rest ih =>
     intro s s' hs hnd hall h
     have hnd0 : (st.id :: rest.map (·.id)).Nodup := hnd
@@ -1534,31 +1536,63 @@ theorem startStreams_exact : ∀ (l : List Stream) (s s' : State), SStruct s →
       · rw [if_pos hre] at h; simp at h
       · rw [if_neg hre] at h
         have hget := hall st List.mem_cons_self
-        have hstarted : ({ st with epochCoins := Coins.quo remain (st.numEpochs - st.filled), ecEmpty := remain.isZero } : Stream) = started st := by
-          unfold started; rw [hr]
+        obtain ⟨q1, q2, q3, _, _, q6, q7, _⟩ := retarget_static st s.distr
+        have hstarted : ({ st.retarget s.distr with epochCoins := Coins.quo remain (st.numEpochs - st.filled), ecEmpty := remain.isZero } : Stream) = started (st.retarget s.distr) := by
+          unfold started; simp only [hr, q2, q3, q6, q7]
         rw [hstarted] at h
-        have hidst : (started st).id = st.id := rfl
-        obtain ⟨w1, _, _⟩ := write_same s hs st (started st) (by rw [hidst]; exact hget) rfl rfl
-        have hall' : ∀ y ∈ rest, getS (setStream s (started st)).streams y.id = some y := by
+        have hidst : (started (st.retarget s.distr)).id = st.id := q1
+        obtain ⟨w1, _, _⟩ := write_same s hs st (started (st.retarget s.distr)) (by rw [hidst]; exact hget) q2 q3
+        have hall' : ∀ y ∈ rest, getS (setStream s (started (st.retarget s.distr))).streams y.id = some y := by
           intro y hy
           have hne : y.id ≠ st.id := fun he => hn1 (by rw [← he]; exact List.mem_map_of_mem (f := (·.id)) hy)
-          rw [getS_setStream_ne s hs (started st) ⟨st, by rw [hidst]; exact hget⟩ y.id (by rw [hidst]; exact hne)]
+          rw [getS_setStream_ne s hs (started (st.retarget s.distr)) ⟨st, by rw [hidst]; exact hget⟩ y.id (by rw [hidst]; exact hne)]
           exact hall y (List.mem_cons_of_mem _ hy)
-        obtain ⟨r1, r2, r3, r4, r5⟩ := ih _ _ w1 hn2 hall' h
-        refine ⟨r1, r2, r3, ?_, ?_⟩
+        obtain ⟨r1, r2, r3, r4, r5, r6⟩ := ih _ _ w1 hn2 hall' h
+        refine ⟨r1, r2, r3, ?_, r5, ?_⟩
         · intro x hx
           simp only [List.map_cons, List.mem_cons, not_or] at hx
           rw [r4 x hx.2]
-          exact getS_setStream_ne s hs (started st) ⟨st, by rw [hidst]; exact hget⟩ x (by rw [hidst]; exact hx.1)
+          exact getS_setStream_ne s hs (started (st.retarget s.distr)) ⟨st, by rw [hidst]; exact hget⟩ x (by rw [hidst]; exact hx.1)
         · intro y hy
           rcases List.mem_cons.1 hy with h1 | h1
           · rw [h1]
             refine ⟨?_, hre, hle⟩
             rw [r4 st.id hn1]
-            have := getS_setStream_eq s hs (started st) ⟨st, by rw [hidst]; exact hget⟩
+            have := getS_setStream_eq s hs (started (st.retarget s.distr)) ⟨st, by rw [hidst]; exact hget⟩
             rw [hidst] at this; exact this
-          · exact r5 y h1
+          · exact r6 y h1
 
+/-- a re-targeted stream's total weight is the sum of its weights (`DistrInfoFromDistribution` sums the powers) -/
+theorem retarget_tw (st : Stream) (d : List Rec) (h : st.totalWeight = totalWeightOf st.recs) :
+    (st.retarget d).totalWeight = totalWeightOf (st.retarget d).recs := by
+  unfold Stream.retarget; split
+  · rfl
+  · exact h
+
+theorem retarget_recs (st : Stream) (d : List Rec) (h : StrictInc (st.recs.map (·.gauge))) (hd : StrictInc (d.map (·.gauge))) :
+    StrictInc ((st.retarget d).recs.map (·.gauge)) := by
+  unfold Stream.retarget; split
+  · exact hd
+  · exact h
+
+theorem activateDue_distr : ∀ (l : List Stream) (s s1 : State), activateDue l s = .ok s1 → s1.distr = s.distr := by
+  intro l
+  induction l with
+  | nil => intro s s1 h; simp only [activateDue, Except.ok.injEq] at h; subst h; rfl
+  | cons st rest ih =>
+    intro s s1 h
+    unfold activateDue at h
+    split at h
+    · cases hd : Refs.del s.upcoming st.start st.id with
+      | none => simp [hd] at h
+      | some u =>
+        simp only [hd] at h
+        cases hf : Refs.add s.active st.start st.id with
+        | none => simp [hf] at h
+        | some a =>
+          simp only [hf] at h
+          rw [ih _ _ h]
+    · exact ih _ _ h
 
 theorem started_strong (st : Stream) (p : Pointer) (htw : st.totalWeight = totalWeightOf st.recs)
     (hre : st.numEpochs - st.filled ≠ 0) (hle : ∀ i, amt st.distributed i ≤ amt st.coins i) (i : Nat) :
@@ -1619,7 +1653,8 @@ theorem fresh_strong (st : Stream) (p : Pointer) (htw : st.totalWeight = totalWe
   omega
 
 theorem beforeEpochStart_SB (s s' : State) (e : Nat) (hs : SStruct s) (hstat : SStat s) (hfresh : Fresh s) (hsb : SB s)
-    (h : streamerBeforeEpochStart s e = .ok s') : SB s' ∧ SStat s' ∧ Fresh s' := by
+    (hdist : StrictInc (s.distr.map (·.gauge)))
+    (h : streamerBeforeEpochStart s e = .ok s') : SB s' ∧ SStat s' ∧ Fresh s' ∧ s'.distr = s.distr := by
   unfold streamerBeforeEpochStart at h
   cases ha : activateDue (upcomingStreams s) s with
   | error x => simp [ha] at h
@@ -1628,7 +1663,8 @@ theorem beforeEpochStart_SB (s s' : State) (e : Nat) (hs : SStruct s) (hstat : S
     obtain ⟨a1, a2, _, a4, a5, a6⟩ := activateDue_exact _ _ _ ha
     obtain ⟨hs1, _, _, _⟩ := activateDue_spec _ _ _ hs ha
     obtain ⟨gi1, gi2⟩ := activeStreamsFor_good s1 hs1 e
-    obtain ⟨b1, b2, _, b4, b5⟩ := startStreams_exact _ _ _ hs1 gi1 (fun st hst => (gi2 st hst).1) h
+    obtain ⟨b1, b2, _, b4, b6, b5⟩ := startStreams_exact _ _ _ hs1 gi1 (fun st hst => (gi2 st hst).1) h
+    have hd1 : s1.distr = s.distr := activateDue_distr _ _ _ ha
     obtain ⟨hs', _, _, _⟩ := startStreams_spec _ _ _ hs1 gi1 (fun st hst => (gi2 st hst).1) h
     have hup1 : s'.upcoming = s1.upcoming := (startStreams_upcoming _ _ _ h)
     -- upcoming streams handed to activateDue are stored copies with upcoming ids
@@ -1637,7 +1673,7 @@ theorem beforeEpochStart_SB (s s' : State) (e : Nat) (hs : SStruct s) (hstat : S
       exact fun st hst => (streamsOf_spec s.streams hs.sid s.upcoming.ids n2).2 st hst
     have classify : ∀ st' ∈ s'.streams,
         (st' ∈ s.streams ∧ st'.id ∉ (activeStreamsFor s1 e).map (·.id)) ∨
-        (∃ st ∈ activeStreamsFor s1 e, st ∈ s.streams ∧ st' = started st ∧ st.numEpochs - st.filled ≠ 0 ∧ ∀ i, amt st.distributed i ≤ amt st.coins i) := by
+        (∃ st ∈ activeStreamsFor s1 e, st ∈ s.streams ∧ st' = started (st.retarget s1.distr) ∧ st.numEpochs - st.filled ≠ 0 ∧ ∀ i, amt st.distributed i ≤ amt st.coins i) := by
       intro st' hm
       have hget' := getS_of_mem hs'.sid hm
       by_cases hx : st'.id ∈ (activeStreamsFor s1 e).map (·.id)
@@ -1650,7 +1686,7 @@ theorem beforeEpochStart_SB (s s' : State) (e : Nat) (hs : SStruct s) (hstat : S
         have := b4 _ hx
         rw [hget', a1] at this
         exact ⟨mem_of_getS this.symm, hx⟩
-    refine ⟨?_, ?_, ?_⟩
+    refine ⟨?_, ?_, ?_, by rw [b6, hd1]⟩
     · intro st' hm i
       rcases classify st' hm with ⟨c1, c2⟩ | ⟨st, hst, c1, c2, c3, c4⟩
       · unfold SBst
@@ -1672,19 +1708,21 @@ theorem beforeEpochStart_SB (s s' : State) (e : Nat) (hs : SStruct s) (hstat : S
           have hact0 : st'.id ∉ s.active.ids := fun hx => hact (a5 _ hx)
           have := hsb st' c1 i
           unfold SBst at this; rw [if_neg hact0] at this; exact this
-      · have hact : st'.id ∈ s'.active.ids := by
-          rw [b2, c2]; exact (gi2 st hst).2
+      · obtain ⟨q1, q2, q3, _, _, q6, q7, _⟩ := retarget_static st s1.distr
+        have hact : st'.id ∈ s'.active.ids := by
+          rw [b2, c2]; show (st.retarget s1.distr).id ∈ _; rw [q1]; exact (gi2 st hst).2
         unfold SBst; rw [if_pos hact, c2]
-        exact started_strong st _ (hstat.tw st c1) c3 c4 i
+        exact started_strong (st.retarget s1.distr) _ (retarget_tw st _ (hstat.tw st c1)) (by rw [q6, q7]; exact c3)
+          (by intro i; rw [q2, q3]; exact c4 i) i
     · constructor
       · intro st' hm
         rcases classify st' hm with ⟨c1, _⟩ | ⟨st, _, c1, c2, _, _⟩
         · exact hstat.tw st' c1
-        · rw [c2]; exact hstat.tw st c1
+        · rw [c2]; exact retarget_tw st _ (hstat.tw st c1)
       · intro st' hm
         rcases classify st' hm with ⟨c1, _⟩ | ⟨st, _, c1, c2, _, _⟩
         · exact hstat.recs st' c1
-        · rw [c2]; exact hstat.recs st c1
+        · rw [c2]; exact retarget_recs st _ (hstat.recs st c1) (by rw [hd1]; exact hdist)
     · intro st' hm hu
       rw [hup1] at hu
       have hu0 := a6 _ hu
@@ -1694,7 +1732,7 @@ theorem beforeEpochStart_SB (s s' : State) (e : Nat) (hs : SStruct s) (hstat : S
         exfalso
         have hact1 : st.id ∈ s1.active.ids := (gi2 st hst).2
         obtain ⟨_, _, n3⟩ := List.nodup_append.1 hs1.nodup
-        have hid : st'.id = st.id := by rw [c2]; rfl
+        have hid : st'.id = st.id := by rw [c2]; exact (retarget_static st s1.distr).1
         exact n3 st.id hact1 st.id (by rw [← hid]; exact hu) rfl
 
 /-! ### frames, messages, blocks -/
@@ -1831,7 +1869,97 @@ theorem startStreams_len : ∀ (l : List Stream) (s s' : State), startStreams l 
       · simp at h
       · rw [ih _ _ h]; simp [setStream]
 
-/-- the full invariant of M-Incent (gauge side, stream structure, stream bound, static facts, id range) -/
+/-! ### the stored sponsorship distribution is only changed by the `distribution` input -/
+
+theorem saveStreamEnd_distr (st : Stream) (s s' : State) (h : saveStreamEnd st s = .ok s') : s'.distr = s.distr := by
+  unfold saveStreamEnd at h
+  repeat' (first | split at h | dsimp only at h)
+  all_goals first | (simp at h; done) | (simp only [Except.ok.injEq] at h; subst h; rfl)
+
+theorem saveStreams_distr (ee : Bool) : ∀ (l : List Stream) (s s' : State), saveStreams ee l s = .ok s' → s'.distr = s.distr := by
+  intro l
+  induction l with
+  | nil => intro s s' h; simp only [saveStreams, Except.ok.injEq] at h; subst h; rfl
+  | cons st rest ih =>
+    intro s s' h
+    unfold saveStreams at h
+    by_cases he : ee = true
+    · simp only [he, if_true] at h
+      cases hs : saveStreamEnd st.atEpochEnd s with
+      | error e => simp [hs] at h
+      | ok s1 =>
+        simp only [hs] at h
+        rw [ih _ _ (by rw [he]; exact h), saveStreamEnd_distr _ _ _ hs]
+    · have he' : ee = false := by simpa using he
+      simp only [he', Bool.false_eq_true, if_false] at h
+      rw [ih _ _ (by rw [he']; exact h)]; rfl
+
+theorem strDistribute_distr (s : State) (es : List Nat) (streams : List Stream) (maxOps : Nat) (ee : Bool) (s' : State)
+    (h : strDistribute s es streams maxOps ee = .ok s') : s'.distr = s.distr := by
+  unfold strDistribute at h
+  generalize ptrLoop s maxOps (sortByDuration es) 0 ⟨sortById streams, [], []⟩ s.ptrs = res at h
+  obtain ⟨tot, c, ps⟩ := res
+  dsimp only at h
+  split at h
+  · simp at h
+  · next b _ =>
+    cases hd : incDistribute { s with ptrs := ps, bank := b } c.gauges ee with
+    | error x => simp [hd] at h
+    | ok s2 =>
+      simp only [hd] at h
+      rw [saveStreams_distr _ _ _ _ h, incDistribute_frame _ _ _ _ hd]
+
+theorem incAfterEpochEnd_distr (s : State) (e : Nat) (s' : State) (h : incAfterEpochEnd s e = .ok s') : s'.distr = s.distr := by
+  unfold incAfterEpochEnd at h
+  split at h
+  · simp only [Except.ok.injEq] at h; subst h; rfl
+  · simp only at h
+    generalize hf : (fun g : Gauge => if (g.status == GStatus.upcoming && decide (g.start ≤ s.now)) = true then { g with status := GStatus.active } else g) = f at h
+    cases hd : incDistribute { s with gauges := s.gauges.map f } (List.filter (fun x => x.status == GStatus.active) (s.gauges.map f)) true with
+    | error x => simp [hd] at h
+    | ok s2 =>
+      simp only [hd, Except.ok.injEq] at h
+      have f1 := incDistribute_frame _ _ _ _ hd
+      have f2 := checkFinished_frame2 (List.filter (fun x => x.status == GStatus.active) (s.gauges.map f)) s2
+      rw [← h, f2]
+      simp only
+      rw [f1]
+
+theorem streamerAfterEpochEnd_distr (s : State) (e : Nat) (s' : State) (h : streamerAfterEpochEnd s e = .ok s') : s'.distr = s.distr := by
+  unfold streamerAfterEpochEnd at h
+  split at h
+  · simp only [Except.ok.injEq] at h; subst h; rfl
+  · cases hd : strDistribute s [e] (activeStreamsFor s e) maxU64 true with
+    | error x => simp [hd] at h
+    | ok s1 =>
+      simp only [hd, Except.ok.injEq] at h
+      rw [← h]; exact strDistribute_distr s _ _ _ _ s1 hd
+
+theorem poolGaugesLoop_frame (denom : Nat) (hsup : Bool) : ∀ (ds : List Nat) (s : State),
+    (poolGaugesLoop denom hsup ds s).2.streams = s.streams ∧ (poolGaugesLoop denom hsup ds s).2.active = s.active ∧
+    (poolGaugesLoop denom hsup ds s).2.upcoming = s.upcoming ∧ (poolGaugesLoop denom hsup ds s).2.ptrs = s.ptrs ∧
+    (poolGaugesLoop denom hsup ds s).2.distr = s.distr := by
+  intro ds
+  induction ds with
+  | nil => intro s; exact ⟨rfl, rfl, rfl, rfl, rfl⟩
+  | cons d rest ih =>
+    intro s
+    unfold poolGaugesLoop
+    have h1 : (createGauge s streamerAddr true denom d hsup [] s.now 1).2.streams = s.streams ∧ (createGauge s streamerAddr true denom d hsup [] s.now 1).2.active = s.active ∧
+        (createGauge s streamerAddr true denom d hsup [] s.now 1).2.upcoming = s.upcoming ∧ (createGauge s streamerAddr true denom d hsup [] s.now 1).2.ptrs = s.ptrs ∧
+        (createGauge s streamerAddr true denom d hsup [] s.now 1).2.distr = s.distr := by
+      unfold createGauge; repeat' (first | split | dsimp only)
+      all_goals exact ⟨rfl, rfl, rfl, rfl, rfl⟩
+    generalize createGauge s streamerAddr true denom d hsup [] s.now 1 = res at h1
+    obtain ⟨o, s1⟩ := res
+    obtain ⟨a1, a2, a3, a4, a5⟩ := h1
+    obtain ⟨b1, b2, b3, b4, b5⟩ := ih s1
+    cases o
+    · exact ⟨b1.trans a1, b2.trans a2, b3.trans a3, b4.trans a4, b5.trans a5⟩
+    all_goals exact ⟨a1, a2, a3, a4, a5⟩
+
+/-- the full invariant of M-Incent (gauge side, stream structure, stream bound, static facts, id range, and the
+    sponsorship distribution's gauges in strictly ascending order) -/
 structure Inv (s : State) : Prop where
   ginv : GInv s
   struct : SStruct s
@@ -1839,11 +1967,12 @@ structure Inv (s : State) : Prop where
   stat : SStat s
   fresh : Fresh s
   len : s.streams.length < maxU64
+  dist : StrictInc (s.distr.map (·.gauge))
 
 theorem streamerAfterEpochEnd_inv (s : State) (e : Nat) (s' : State) (hi : Inv s) (h : streamerAfterEpochEnd s e = .ok s') : Inv s' := by
   obtain ⟨a, b⟩ := afterEpochEnd_SB s s' e hi.ginv hi.struct hi.stat hi.sb hi.len h
   have hst := (streamerAfterEpochEnd_sstep s e s' hi.ginv hi.struct h).struct
-  refine ⟨(streamerAfterEpochEnd_spec s e s' hi.ginv h).1, hst, a, b, ?_, ?_⟩
+  refine ⟨(streamerAfterEpochEnd_spec s e s' hi.ginv h).1, hst, a, b, ?_, ?_, by rw [streamerAfterEpochEnd_distr s e s' h]; exact hi.dist⟩
   · unfold streamerAfterEpochEnd at h
     by_cases hemp : (activeStreamsFor s e).isEmpty = true
     · rw [if_pos hemp] at h
@@ -1884,11 +2013,12 @@ theorem streamerAfterEpochEnd_inv (s : State) (e : Nat) (s' : State) (hi : Inv s
 theorem incAfterEpochEnd_inv (s : State) (e : Nat) (s' : State) (hi : Inv s) (h : incAfterEpochEnd s e = .ok s') : Inv s' := by
   obtain ⟨f1, f2, f3, f4⟩ := incAfterEpochEnd_frame s e s' h
   exact ⟨(incAfterEpochEnd_spec s e s' hi.ginv h).1, (incAfterEpochEnd_sstep s e s' hi.ginv hi.struct h).struct,
-    SB_congr f1 f2 f3 hi.sb, SStat_congr f1 hi.stat, Fresh_congr f1 f4 hi.fresh, by rw [f1]; exact hi.len⟩
+    SB_congr f1 f2 f3 hi.sb, SStat_congr f1 hi.stat, Fresh_congr f1 f4 hi.fresh, by rw [f1]; exact hi.len,
+    by rw [incAfterEpochEnd_distr s e s' h]; exact hi.dist⟩
 
 theorem streamerBeforeEpochStart_inv (s : State) (e : Nat) (s' : State) (hi : Inv s) (h : streamerBeforeEpochStart s e = .ok s') : Inv s' := by
-  obtain ⟨a, b, c⟩ := beforeEpochStart_SB s s' e hi.struct hi.stat hi.fresh hi.sb h
-  refine ⟨(streamerBeforeEpochStart_same s e s' h).ginv hi.ginv, (streamerBeforeEpochStart_sstep s e s' hi.struct h).struct, a, b, c, ?_⟩
+  obtain ⟨a, b, c, d⟩ := beforeEpochStart_SB s s' e hi.struct hi.stat hi.fresh hi.sb hi.dist h
+  refine ⟨(streamerBeforeEpochStart_same s e s' h).ginv hi.ginv, (streamerBeforeEpochStart_sstep s e s' hi.struct h).struct, a, b, c, ?_, by rw [d]; exact hi.dist⟩
   unfold streamerBeforeEpochStart at h
   cases ha : activateDue (upcomingStreams s) s with
   | error x => simp [ha] at h
@@ -1903,8 +2033,9 @@ theorem applyHook_inv (f : State → Res) (s : State) (hi : Inv s) (hf : ∀ s',
   | error e => exact hi
 
 theorem Inv_frame {s s' : State} (hi : Inv s) (h1 : s'.streams = s.streams) (h2 : s'.active = s.active) (h3 : s'.upcoming = s.upcoming)
-    (h4 : s'.ptrs = s.ptrs) (hg : GInv s') : Inv s' :=
-  ⟨hg, SStruct_congr h1 h2 h3 hi.struct, SB_congr h1 h2 h4 hi.sb, SStat_congr h1 hi.stat, Fresh_congr h1 h3 hi.fresh, by rw [h1]; exact hi.len⟩
+    (h4 : s'.ptrs = s.ptrs) (hg : GInv s') (h5 : s'.distr = s.distr := by rfl) : Inv s' :=
+  ⟨hg, SStruct_congr h1 h2 h3 hi.struct, SB_congr h1 h2 h4 hi.sb, SStat_congr h1 hi.stat, Fresh_congr h1 h3 hi.fresh, by rw [h1]; exact hi.len,
+   by rw [h5]; exact hi.dist⟩
 
 theorem epochTick_inv (s : State) (e : Nat) (hi : Inv s) : Inv (epochTick s e) := by
   unfold epochTick
@@ -1945,29 +2076,34 @@ theorem endBlock_inv (s s' : State) (hi : Inv s) (h : streamerEndBlock s = .ok s
   have hs' := (strDistribute_streams s _ _ _ _ s' hi.ginv hi.struct hin h').1
   have hfr := core_fresh s _ _ false s' hc hi.struct hs' hin hi.fresh
   obtain ⟨_, c1, _⟩ := hc
-  exact ⟨(strDistribute_spec _ _ _ _ _ _ hi.ginv h').1, hs', a, b, hfr, by rw [c1]; exact hi.len⟩
+  exact ⟨(strDistribute_spec _ _ _ _ _ _ hi.ginv h').1, hs', a, b, hfr, by rw [c1]; exact hi.len,
+    by rw [strDistribute_distr _ _ _ _ _ _ h']; exact hi.dist⟩
 
 
 /-- the stream `CreateStream` stores -/
-def newStream (s : State) (c : Coins) (rs : List Rec) (start' e n : Nat) : Stream :=
-  ⟨s.streams.length + 1, rs, totalWeightOf rs, c, [], start', e, n, 0, Coins.quo c n, false⟩
+def newStream (s : State) (sp : Bool) (c : Coins) (rs : List Rec) (start' e n : Nat) : Stream :=
+  ⟨s.streams.length + 1, rs, totalWeightOf rs, c, [], start', e, n, 0, Coins.quo c n, false, sp⟩
 
-/-- `createStream` either leaves the state alone or appends a fresh upcoming stream with validated records -/
-theorem createStream_shape (s : State) (c : Coins) (rs : List Rec) (st e n : Nat) :
-    (createStream s c rs st e n).2 = s ∨
-    (validateRecs s rs 0 [] = true ∧ ∃ u start', n ≠ 0 ∧ Refs.add s.upcoming start' (s.streams.length + 1) = some u ∧
-      (createStream s c rs st e n).2 = { s with streams := s.streams ++ [newStream s c rs start' e n], upcoming := u }) := by
+/-- `createStream` either leaves the state alone or appends a fresh upcoming stream whose records are the
+    validated records of the proposal or (sponsored) the current sponsorship distribution -/
+theorem createStream_shape (s : State) (sp : Bool) (c : Coins) (rs : List Rec) (st e n : Nat) :
+    (createStream s sp c rs st e n).2 = s ∨
+    ((sp = false → validateRecs s rs 0 [] = true) ∧ ∃ u start', n ≠ 0 ∧ Refs.add s.upcoming start' (s.streams.length + 1) = some u ∧
+      (createStream s sp c rs st e n).2 =
+        { s with streams := s.streams ++ [newStream s sp c (if sp then s.distr else rs) start' e n], upcoming := u }) := by
   unfold createStream
   by_cases h1 : (c.isZero || decide (n = 0)) = true
   · rw [if_pos h1]; exact Or.inl rfl
   · rw [if_neg h1]
-    by_cases h2 : (!validateRecs s rs 0 []) = true
+    by_cases h2 : (!sp && !validateRecs s rs 0 []) = true
     · rw [if_pos h2]; exact Or.inl rfl
     · rw [if_neg h2]
-      have hv : validateRecs s rs 0 [] = true := by simpa using h2
-      by_cases h3 : totalWeightOf rs = 0
+      have hv : sp = false → validateRecs s rs 0 [] = true := by
+        intro hsp; rw [hsp] at h2; simpa using h2
+      by_cases h3 : (!sp && decide (totalWeightOf rs = 0)) = true
       · rw [if_pos h3]; exact Or.inl rfl
       · rw [if_neg h3]
+        dsimp only
         cases hm : moduleToDistribute s with
         | none => exact Or.inl rfl
         | some alloc =>
@@ -1986,13 +2122,18 @@ theorem createStream_shape (s : State) (c : Coins) (rs : List Rec) (st e n : Nat
                 | none => exact Or.inl rfl
                 | some u => exact Or.inr ⟨hv, u, _, by simp at h1; exact h1.2, hadd, rfl⟩
 
-theorem createStream_inv (s : State) (hi : Inv s) (c : Coins) (rs : List Rec) (st e n : Nat)
-    (hlen : (createStream s c rs st e n).2.streams.length < maxU64) : Inv (createStream s c rs st e n).2 := by
-  have hsame := createStream_same s c rs st e n
-  have hstruct := (createStream_sstep s hi.struct c rs st e n).struct
-  rcases createStream_shape s c rs st e n with h | ⟨hv, u, start', hn0, hadd0, h⟩
+theorem createStream_distr (s : State) (sp : Bool) (c : Coins) (rs : List Rec) (st e n : Nat) :
+    (createStream s sp c rs st e n).2.distr = s.distr := by
+  rcases createStream_shape s sp c rs st e n with h | ⟨_, u, start', _, _, h⟩ <;> rw [h]
+
+theorem createStream_inv (s : State) (hi : Inv s) (sp : Bool) (c : Coins) (rs : List Rec) (st e n : Nat)
+    (hlen : (createStream s sp c rs st e n).2.streams.length < maxU64) : Inv (createStream s sp c rs st e n).2 := by
+  have hsame := createStream_same s sp c rs st e n
+  have hstruct := (createStream_sstep s hi.struct sp c rs st e n).struct
+  have hdist := createStream_distr s sp c rs st e n
+  rcases createStream_shape s sp c rs st e n with h | ⟨hv, u, start', hn0, hadd0, h⟩
   · rw [h]; exact hi
-  · refine ⟨hsame.ginv hi.ginv, hstruct, ?_, ?_, ?_, hlen⟩
+  · refine ⟨hsame.ginv hi.ginv, hstruct, ?_, ?_, ?_, hlen, by rw [hdist]; exact hi.dist⟩
     rotate_left 2
     · -- Fresh
       rw [h]
@@ -2022,7 +2163,7 @@ theorem createStream_inv (s : State) (hi : Inv s) (c : Coins) (rs : List Rec) (s
           intro hx
           have := (hi.struct.valid _ (List.mem_append_left _ hx)).2
           rw [h1] at this
-          have hid : (newStream s c rs start' e n).id = s.streams.length + 1 := rfl
+          have hid : (newStream s sp c (if sp then s.distr else rs) start' e n).id = s.streams.length + 1 := rfl
           omega
         rw [if_neg hna, h1]
         show amt ([] : Coins) i ≤ amt c i
@@ -2037,12 +2178,18 @@ theorem createStream_inv (s : State) (hi : Inv s) (c : Coins) (rs : List Rec) (s
         rcases List.mem_append.1 hm with h1 | h1
         · exact hi.stat.recs st' h1
         · simp only [List.mem_singleton] at h1; rw [h1]
-          show StrictInc (rs.map (·.gauge))
-          exact strictInc_of_pairwise _ (validateRecs_strict s rs 0 [] hv).2
+          show StrictInc ((if sp then s.distr else rs).map (·.gauge))
+          cases sp with
+          | true => exact hi.dist
+          | false => exact strictInc_of_pairwise _ (validateRecs_strict s rs 0 [] (hv rfl)).2
 
 theorem moveToFinished_inv (s : State) (hi : Inv s) (b : Bool) (st : Stream) (s' : State) (h : moveToFinished s b st = some s') : Inv s' := by
   have hsame := moveToFinished_same s b st s' h
   have hstruct := (moveToFinished_sstep s hi.struct b st s' h).struct
+  have f6 : s'.distr = s.distr := by
+    unfold moveToFinished at h
+    repeat' (first | split at h | dsimp only at h)
+    all_goals first | (simp at h; done) | (simp only [Option.some.injEq] at h; subst h; rfl)
   have hfacts : s'.streams = s.streams ∧ s'.ptrs = s.ptrs ∧ (∀ x, x ∈ s'.active.ids → x ∈ s.active.ids) ∧ (∀ x, x ∈ s'.upcoming.ids → x ∈ s.upcoming.ids) := by
     unfold moveToFinished at h
     cases b with
@@ -2073,7 +2220,7 @@ theorem moveToFinished_inv (s : State) (hi : Inv s) (b : Bool) (st : Stream) (s'
           subst h
           exact ⟨rfl, rfl, fun x hx => hx, fun x hx => Refs.del_subset hd x hx⟩
   obtain ⟨f1, f2, f3, f5⟩ := hfacts
-  refine ⟨hsame.ginv hi.ginv, hstruct, ?_, SStat_congr f1 hi.stat, ?_, by rw [f1]; exact hi.len⟩
+  refine ⟨hsame.ginv hi.ginv, hstruct, ?_, SStat_congr f1 hi.stat, ?_, by rw [f1]; exact hi.len, by rw [f6]; exact hi.dist⟩
   rotate_left
   · intro st' hm hu; rw [f1] at hm; exact hi.fresh st' hm (f5 _ hu)
   intro st' hm i
@@ -2097,6 +2244,7 @@ theorem terminateStream_inv (s : State) (hi : Inv s) (id : Nat) : Inv (terminate
     operation that can break the stream bound: it may add pending shares in the middle of an epoch -/
 def Op.noRetarget : Op → Prop
   | .replaceDistr _ _ => False
+  | .updateDistr _ _ => False
   | _ => True
 
 instance (op : Op) : Decidable op.noRetarget := by
@@ -2125,31 +2273,41 @@ theorem step_inv (s : State) (op : Op) (hi : Inv s) (hw : op.wf) (hw2 : op.wfS) 
     | rollappGauge r =>
       simp only at hg ⊢
       have : (createRollappGauge s r).2.streams = s.streams ∧ (createRollappGauge s r).2.active = s.active ∧
-          (createRollappGauge s r).2.upcoming = s.upcoming ∧ (createRollappGauge s r).2.ptrs = s.ptrs := by
+          (createRollappGauge s r).2.upcoming = s.upcoming ∧ (createRollappGauge s r).2.ptrs = s.ptrs ∧ (createRollappGauge s r).2.distr = s.distr := by
         unfold createRollappGauge; repeat' (first | split | dsimp only)
-        all_goals exact ⟨rfl, rfl, rfl, rfl⟩
-      exact Inv_frame hi this.1 this.2.1 this.2.2.1 this.2.2.2 hg
+        all_goals exact ⟨rfl, rfl, rfl, rfl, rfl⟩
+      exact Inv_frame hi this.1 this.2.1 this.2.2.1 this.2.2.2.1 hg this.2.2.2.2
     | createGauge o p d du hsup c st n =>
       simp only at hg ⊢
       have : (createGauge s o p d du hsup c st n).2.streams = s.streams ∧ (createGauge s o p d du hsup c st n).2.active = s.active ∧
-          (createGauge s o p d du hsup c st n).2.upcoming = s.upcoming ∧ (createGauge s o p d du hsup c st n).2.ptrs = s.ptrs := by
+          (createGauge s o p d du hsup c st n).2.upcoming = s.upcoming ∧ (createGauge s o p d du hsup c st n).2.ptrs = s.ptrs ∧ (createGauge s o p d du hsup c st n).2.distr = s.distr := by
         unfold createGauge; repeat' (first | split | dsimp only)
-        all_goals exact ⟨rfl, rfl, rfl, rfl⟩
-      exact Inv_frame hi this.1 this.2.1 this.2.2.1 this.2.2.2 hg
+        all_goals exact ⟨rfl, rfl, rfl, rfl, rfl⟩
+      exact Inv_frame hi this.1 this.2.1 this.2.2.1 this.2.2.2.1 hg this.2.2.2.2
     | addToGauge o gid c =>
       simp only at hg ⊢
       have : (addToGauge s o gid c).2.streams = s.streams ∧ (addToGauge s o gid c).2.active = s.active ∧
-          (addToGauge s o gid c).2.upcoming = s.upcoming ∧ (addToGauge s o gid c).2.ptrs = s.ptrs := by
+          (addToGauge s o gid c).2.upcoming = s.upcoming ∧ (addToGauge s o gid c).2.ptrs = s.ptrs ∧ (addToGauge s o gid c).2.distr = s.distr := by
         unfold addToGauge; repeat' (first | split | dsimp only)
-        all_goals exact ⟨rfl, rfl, rfl, rfl⟩
-      exact Inv_frame hi this.1 this.2.1 this.2.2.1 this.2.2.2 hg
-    | createStream c rs st e n => exact createStream_inv s hi c rs st e n hlen
+        all_goals exact ⟨rfl, rfl, rfl, rfl, rfl⟩
+      exact Inv_frame hi this.1 this.2.1 this.2.2.1 this.2.2.2.1 hg this.2.2.2.2
+    | createStream sp c rs st e n => exact createStream_inv s hi sp c rs st e n hlen
     | terminateStream id => exact terminateStream_inv s hi id
     | replaceDistr id rs => exact absurd hr (by unfold Op.noRetarget; exact fun h => h)
+    | updateDistr id rs => exact absurd hr (by unfold Op.noRetarget; exact fun h => h)
+    | distribution rs =>
+      simp only at hg ⊢
+      exact ⟨hg, SStruct_congr (s := s) (s' := { s with distr := rs }) rfl rfl rfl hi.struct, SB_congr (s := s) (s' := { s with distr := rs }) rfl rfl rfl hi.sb,
+        SStat_congr (s := s) (s' := { s with distr := rs }) rfl hi.stat, Fresh_congr (s := s) (s' := { s with distr := rs }) rfl rfl hi.fresh, hi.len,
+        strictInc_of_pairwise _ hw2⟩
+    | poolGauges d hsup =>
+      simp only at hg ⊢
+      obtain ⟨a1, a2, a3, a4, a5⟩ := poolGaugesLoop_frame d hsup lockableDurations s
+      exact Inv_frame hi a1 a2 a3 a4 hg a5
 
 theorem init_inv (now mi : Nat) : Inv (init now mi) :=
   ⟨init_ginv now mi, init_sstruct now mi, by intro st hm; simp [init] at hm, ⟨by intro st hm; simp [init] at hm, by intro st hm; simp [init] at hm⟩,
-   by intro st hm; simp [init] at hm, by simp [init, maxU64]⟩
+   by intro st hm; simp [init] at hm, by simp [init, maxU64], by intro i j _ hj; simp [init] at hj⟩
 
 /-- **the full invariant holds along every history** without re-targeting, as long as fewer than 2^64-1
     streams have been created -/
